@@ -53,5 +53,23 @@ def merge_part(ctx, tier):
             if type(m).__name__ != cls:
                 ctx.add_violation({"property": "C16", "spec": "PhystGeom", "action": "MergeAdditive", "tag": f"MergeClass/{cls}", "fields": ["class"],
                                    "detail": type(m).__name__, "call": {"class": cls}})
+    # gapped bins: a merged run that straddles a gap would cover more than its parts; the merge must be refused or stay additive
+    from physt.types import Histogram1D, Histogram2D
+    gapped = np.array([[0., 1.], [1., 2.], [3., 4.], [4., 6.]])
+    cases = [("Histogram1D", Histogram1D(gapped, np.array([1., 2., 3., 4.])), 0),
+             ("Histogram2D", Histogram2D([gapped, np.array([0., 1., 3.])], np.arange(8, dtype=float).reshape(4, 2) + 1), 0),
+             ("RadialHistogram", S.RadialHistogram(gapped, np.array([1., 2., 3., 4.])), 0)]
+    for name, h, axis in cases:
+        for amount in (2, 3, 4):
+            n += 1
+            try:
+                m = h.merge_bins(amount, axis=axis)
+            except Exception:
+                continue        # refused: fine
+            if not np.isclose(np.asarray(m.bin_sizes).sum(), np.asarray(h.bin_sizes).sum(), rtol=1e-14, atol=0):
+                ctx.add_violation({"property": "C16", "spec": "PhystGeom", "action": "MergeAdditive", "tag": f"MergeAcrossGap/{name}/{amount}",
+                                   "fields": ["bin_sizes"], "detail": {"sum_before": float(np.asarray(h.bin_sizes).sum()),
+                                                                        "sum_after": float(np.asarray(m.bin_sizes).sum())},
+                                   "call": {"class": name, "amount": amount, "bins": gapped.tolist()}})
     ctx.replayed += n
     ctx.tags["MergeAdditive"] = n
